@@ -4,7 +4,7 @@ from __future__ import annotations
 
 import copy
 
-from .core import outcome, octs, after_pack, rxbuf, decoded, scramble
+from .core import outcome, octs, after_pack, rxbuf, decoded, scramble, owned
 from .probe import decode_other, poison, twin
 
 KIND_ORDER = ["eof", "finished", "ack", "metadata", "nak", "prompt", "keepalive", "filedata"]
@@ -35,18 +35,28 @@ def bf_inplace(v):
     return f
 
 
+def enum_arg(cls, v, *key):
+    """An enumerated argument as a caller may write it: the enum member, or its plain integer / boolean value (the enums are
+    IntEnums: `1 == CrcFlag.WITH_CRC`, and the library accepts either).  Which spelling is used is a deterministic function
+    of the surrounding arguments, so every grid and every random run exercises all of them."""
+    import zlib
+    k = zlib.crc32(repr((cls.__name__, v) + key).encode()) % 4
+    if k == 1:
+        return int(v)
+    if k == 2 and v in (0, 1):
+        return bool(v)
+    return cls(v)
+
+
 def mk_cfg(c, inplace=False):
     from spacepackets.cfdp.conf import PduConfig
     from spacepackets.cfdp.defs import (TransmissionMode, LargeFileFlag, CrcFlag, Direction, SegmentationControl)
-    if inplace:
-        return PduConfig(source_entity_id=bf_inplace(c["src"]), dest_entity_id=bf_inplace(c["dst"]),
-                         transaction_seq_num=bf_inplace(c["seq"]), trans_mode=TransmissionMode(c["mode"]),
-                         file_flag=LargeFileFlag(c["large"]), crc_flag=CrcFlag(c["crc"]), direction=Direction(c["dir"]),
-                         seg_ctrl=SegmentationControl(c["segctrl"]))
-    return PduConfig(source_entity_id=bf(c["src"]), dest_entity_id=bf(c["dst"]), transaction_seq_num=bf(c["seq"]),
-                     trans_mode=TransmissionMode(c["mode"]), file_flag=LargeFileFlag(c["large"]),
-                     crc_flag=CrcFlag(c["crc"]), direction=Direction(c["dir"]),
-                     seg_ctrl=SegmentationControl(c["segctrl"]))
+    key = (tuple(c["src"]), tuple(c["seq"]), tuple(c["dst"]), c["mode"], c["large"], c["crc"], c["dir"], c["segctrl"])
+    f = bf_inplace if inplace else bf
+    return PduConfig(source_entity_id=f(c["src"]), dest_entity_id=f(c["dst"]), transaction_seq_num=f(c["seq"]),
+                     trans_mode=enum_arg(TransmissionMode, c["mode"], key), file_flag=enum_arg(LargeFileFlag, c["large"], key),
+                     crc_flag=enum_arg(CrcFlag, c["crc"], key), direction=enum_arg(Direction, c["dir"], key),
+                     seg_ctrl=enum_arg(SegmentationControl, c["segctrl"], key))
 
 
 def proj_cfg(c):
@@ -101,24 +111,26 @@ def mk_pdu(kind, cfg, p):
     from spacepackets.cfdp.tlv.defs import TlvType
     conf = mk_cfg(cfg)
     params = None
+    K = repr(sorted(p.items()))[:200]            # key for the spelling of enumerated arguments (enum_arg)
     if kind == "eof":
         params = _entity(p["fault"])
-        ctor = lambda: P.EofPdu(conf, bytes(p["checksum"]), _i(p["size"]), params, ConditionCode(p["cond"]))
+        ctor = lambda: P.EofPdu(conf, bytes(p["checksum"]), _i(p["size"]), params, enum_arg(ConditionCode, p["cond"], K))
     elif kind == "finished":
         from spacepackets.cfdp.pdu.finished import FinishedParams
-        params = FinishedParams(ConditionCode(p["cond"]), DeliveryCode(p["delivery"]), FileStatus(p["status"]),
+        params = FinishedParams(enum_arg(ConditionCode, p["cond"], K), enum_arg(DeliveryCode, p["delivery"], K),
+                                enum_arg(FileStatus, p["status"], K),
                                 [mk_fsresp(r) for r in p["responses"]], _entity(p["fault"]))
         ctor = lambda: P.FinishedPdu(conf, params)
     elif kind == "ack":
         from spacepackets.cfdp.pdu.ack import TransactionStatus
-        ctor = lambda: P.AckPdu(conf, P.DirectiveType(p["acked"]), ConditionCode(p["cond"]),
-                                TransactionStatus(p["tstatus"]))
+        ctor = lambda: P.AckPdu(conf, enum_arg(P.DirectiveType, p["acked"], K), enum_arg(ConditionCode, p["cond"], K),
+                                enum_arg(TransactionStatus, p["tstatus"], K))
     elif kind == "metadata":
         from spacepackets.cfdp.pdu.metadata import MetadataParams
-        params = MetadataParams(bool(p["closure"]), ChecksumType(p["cktype"]), _i(p["size"]),
+        params = MetadataParams(bool(p["closure"]), enum_arg(ChecksumType, p["cktype"], K), _i(p["size"]),
                                 _name(p["srcname"]) if p["srcname"] else None,
                                 _name(p["dstname"]) if p["dstname"] else None)
-        opts = [CfdpTlv(TlvType(o["t"]), bytes(o["v"])) for o in p["options"]]
+        opts = [CfdpTlv(enum_arg(TlvType, o["t"], K), bytes(o["v"])) for o in p["options"]]
         ctor = lambda: P.MetadataPdu(conf, params, opts if opts else None)
     elif kind == "nak":
         params = [(_i(s), _i(e)) for s, e in p["segs"]]
@@ -128,14 +140,21 @@ def mk_pdu(kind, cfg, p):
             ctor = lambda: P.NakPdu(conf, _i(p["start"]), _i(p["end"]))
     elif kind == "prompt":
         from spacepackets.cfdp.pdu.prompt import ResponseRequired
-        ctor = lambda: P.PromptPdu(conf, ResponseRequired(p["resp"]))
+        ctor = lambda: P.PromptPdu(conf, enum_arg(ResponseRequired, p["resp"], K))
     elif kind == "keepalive":
         ctor = lambda: P.KeepAlivePdu(conf, _i(p["progress"]))
     elif kind == "filedata":
         from spacepackets.cfdp.pdu.file_data import FileDataParams, SegmentMetadata, RecordContinuationState
         sm = None
         if p["meta"]:
-            sm = SegmentMetadata(RecordContinuationState(p["meta"][0]["state"]), bytes(p["meta"][0]["md"]))
+            md = bytes(p["meta"][0]["md"])
+            if (len(md) + len(p["data"])) % 2:
+                # SegmentMetadata is a plain record: created with other content, then filled in (what it holds at pack() counts)
+                sm = SegmentMetadata(enum_arg(RecordContinuationState, (p["meta"][0]["state"] + 1) % 4, K), b"\x00")
+                sm.record_cont_state = enum_arg(RecordContinuationState, p["meta"][0]["state"], K)
+                sm.metadata = md
+            else:
+                sm = SegmentMetadata(enum_arg(RecordContinuationState, p["meta"][0]["state"], K), md)
         params = FileDataParams(bytes(p["data"]), _i(p["offset"]), sm)
         ctor = lambda: P.FileDataPdu(conf, params)
     else:
@@ -286,7 +305,7 @@ def op_cfdphdr_rt(a):
                        "src": h["src"], "dst": h["dst"], "seq": h["seq"]}, inplace=a.get("via") == "inplace")
         cfglen = conf.header_len()
         o = PduHeader(PduType(h["type"]), SegmentMetadataFlag(h["segmeta"]), h["dlen"], conf)
-        raw = o.pack()
+        raw = owned(o.pack)
 
         def rest():
             d = PduHeader.unpack(rxbuf(raw, a["sfx"]))
@@ -319,7 +338,7 @@ def op_lv_rt(a):
 
     def run():
         o = CfdpLv(bytes(a["v"]))
-        raw = o.pack()
+        raw = owned(o.pack)
 
         def rest():
             d = CfdpLv.unpack(rxbuf(raw, a["sfx"]))
@@ -343,8 +362,8 @@ def op_tlv_rt(a):
     from spacepackets.cfdp.tlv.defs import TlvType
 
     def run():
-        o = CfdpTlv(TlvType(a["t"]), bytes(a["v"]))
-        raw = o.pack()
+        o = CfdpTlv(enum_arg(TlvType, a["t"], tuple(a["v"][:4])), bytes(a["v"]))
+        raw = owned(o.pack)
 
         def rest():
             d = CfdpTlv.unpack(rxbuf(raw, a["sfx"]))
@@ -380,7 +399,7 @@ def mk_ctlv(cls, p):
     if cls == "msg":
         return T.MessageToUserTlv(bytes(p["v"]))
     if cls == "fault":
-        return T.FaultHandlerOverrideTlv(ConditionCode(p["cond"]), FaultHandlerCode(p["handler"]))
+        return T.FaultHandlerOverrideTlv(enum_arg(ConditionCode, p["cond"], p["handler"]), enum_arg(FaultHandlerCode, p["handler"], p["cond"]))
     if cls == "fsreq":
         return mk_fsreq(p)
     if cls == "fsresp":
@@ -401,9 +420,13 @@ def proj_ctlv(cls, t):
 def _via(cls, raw, via):
     from spacepackets.cfdp.tlv import CfdpTlv, TlvHolder
     c = ctlv_class(cls)
+    buf = bytes(raw) if isinstance(raw, (list, tuple)) else raw          # bytes / bytearray / memoryview pass as they are
     if via == "unpack":
-        return c.unpack(raw if isinstance(raw, (bytes, bytearray)) else bytes(raw))
-    generic = CfdpTlv.unpack(raw if isinstance(raw, (bytes, bytearray)) else bytes(raw))
+        return c.unpack(buf)
+    generic = CfdpTlv.unpack(buf)
+    if (len(buf) + generic.value_len) % 2:
+        # a generic TLV the caller built itself, with the type given as a plain integer (TlvType is an IntEnum)
+        generic = CfdpTlv(int(generic.tlv_type), bytes(generic.value))
     if via == "from_tlv":
         return c.from_tlv(generic)
     h = TlvHolder(generic)
@@ -420,7 +443,7 @@ def op_ctlv_rt(a):
 def _ctlv_rt_body(a, o):
     if True:
         plen = o.packet_len
-        raw = o.pack()
+        raw = owned(o.pack)
 
         def rest():
             d = _via(a["cls"], rxbuf(raw, a["sfx"]), a.get("via", "unpack"))
@@ -479,7 +502,7 @@ def op_pdu_rt(a):
         plen = obj.packet_len
         dflen = obj.pdu_data_field_len
         hlen = obj.header_len
-        raw = obj.pack()
+        raw = owned(obj.pack)
         # a refusal must come from constructing / packing; octets that were emitted and then fail to decode are no refusal
         return after_pack(raw, lambda: rest(obj, conf, params, snap, plen, dflen, hlen, raw))
 
@@ -515,7 +538,7 @@ def op_pdu_fac(a):
 
     def run():
         obj, conf, params, _ = mk_pdu(a["kind"], a["cfg"], a["p"])
-        raw = bytes(obj.pack())
+        raw = bytes(owned(obj.pack))
         return after_pack(raw, lambda: rest(obj, raw))
 
     def rest(obj, raw):
